@@ -11,16 +11,16 @@ CLAIMED = {
     'C06': ('6', 'one fixed_vector operation from an arbitrary reachable state (capacity, contents, stale slots, arguments, index all symbolic) and enumerated operation sequences with symbolic arguments: size<=capacity, raises exactly when unsatisfiable, failed operation leaves the container unchanged, instance-counting elements with a symbolic throwing copy/move are neither leaked nor destroyed twice; CBMC object bounds = no access outside the slots.'),
     'C07': ('6', 'same harness as C06 with a reference bounded list: contents, forward and reverse iteration, copy independence, move transfer and the three assignments are compared after the operation / after every step of enumerated sequences.'),
     'C08': ('6', 'nitro::format against a 15-line reference scanner for every format string up to the length bound (all bytes symbolic) and symbolic arguments, both supply styles and three read-out paths; exception message == concatenation.'),
-    'C02': ('6', 'renderings of an assignment (long/short/= forms, bundled toggles, permutations, --) are enumerated outside the solver; inside each every value byte is symbolic (empty values, embedded =, blanks, non-ASCII, line breaks): every spelling must parse and every value / list / count / positional / provided flag must equal what the reference specification derives from the same vector.'),
+    'C02': ('6', 'renderings of an assignment (long/short/= forms, bundled toggles, permutations, --) are enumerated outside the solver; inside each every value byte is symbolic (empty values, embedded =, blanks, non-ASCII, line breaks): every spelling must parse and every value / list / count / positional / provided flag must equal what the reference specification derives from the same vector. Typed access: arguments::as<int/long long/unsigned> after a real parse returns the number spelled by 1..3 (thorough 4) symbolic decimal digits with optional sign (the integer extraction itself is the stream model).'),
     'C03': ('6', 'kind x {given, not given} x {env unset, env any string incl. empty} x {default or not} x {optional or required} configurations enumerated outside; environment content and command-line values symbolic; value source ranking, verbatim delivery, ; splitting, provided flags and the required/optional outcome are compared with the reference specification.'),
     'C05': ('6', 'logger instantiated with a counting formatter and a recording sequence sink; (compile-time minimum x filter expression x severity) grid enumerated outside, both runtime thresholds and all streamed content symbolic: exactly-once iff enabled, severity/tag/message delivered unaltered, sequence members in order, two statements in program order.'),
     'C09': ('6', 'each thread body (real sink / logger code) is executed against an event-recording mutex + non-thread-safe device model; a symbolic scheduler interleaves the per-thread event lists in EVERY way inside one CBMC query; device content must equal the records whole, once each, in the order their insertions began; no deadlock.'),
-    'C10': ('6', 'same grid as C05: a statement below the compile-time minimum or rejected by the filter evaluates no lazily streamed callable and reaches neither formatter nor sink; an emitted one calls each callable exactly once where it was streamed. The type-level half (statement type == null_stream below the minimum) is a static_assert per minimum, decided by the compiler and reported as a violation if it fails.'),
+    'C10': ('6', 'same grid as C05 (quick: the grid points that stream a lazily evaluated callable), including a change of both runtime thresholds between two statements of one severity: a statement below the compile-time minimum or rejected by the filter evaluates no lazily streamed callable and reaches neither formatter nor sink; an emitted one calls each callable exactly once where it was streamed. The type-level half (statement type == null_stream below the minimum) is a static_assert per minimum, decided by the compiler and reported as a violation if it fails.'),
     'C11': ('6', 'toggle counts over symbolic tokens (bundles, --no-<name>, conflicts in both orders) and the closed environment vocabulary for every byte string up to 8 bytes, against the reference specification.'),
     'C12': ('6', 'positionals verbatim and in order, everything after the first -- and (greedy) after the first positional is positional whatever its bytes, limit boundary for limits 0/1/2/unlimited, and arguments::get(int)/operator[] for every index in [-n-1, n].'),
     'C13': ('6', 'short-name rules, re-declaration across groups and kinds (also after moving the parser and destroying the source object) and letter uniqueness, with symbolic one-byte names and letters on concrete declaration structures; CBMC dead-object checks replace ASan.'),
     'C14': ('6', 'two parse calls on one parser object (one argument vector symbolic, the other concrete, both orders; environment bound or not): the second outcome and every observable must equal those of a freshly built identical parser.'),
-    'C15': ('6', 'parser::usage() on three concrete declaration shapes: text on a fresh stream == text after 0..8 (symbolic) prior bytes == text on the non-seekable cout model, byte for byte; on that text: every declaration once, in group-creation and declaration order, hints shown, no line over 80 columns. The wrapping law with symbolic word lengths was measured out of reach (26 GB) and is not claimed.'),
+    'C15': ('6', 'parser::usage() on four concrete declaration shapes (quick: two): text on a fresh stream == text after a symbolic number (0..8, 0..3 for the larger shape in quick) of prior bytes == text on the non-seekable cout model, byte for byte; on that text: every declaration once, in group-creation and declaration order, hints shown, no line over 80 columns. The wrapping law with symbolic word lengths was measured out of reach (26 GB) and is not claimed.'),
     'C20': ('6', 'enumerate / reverse over 20 (adaptor x container kind x value category) combinations, length 0..3 and values symbolic: exactly n visits, index/value pairs in (reverse) order, aliasing and write-through for lvalue ranges, temporaries alive for the whole loop (CBMC dead-object checks).'),
     'C16': ('6', 'six operators of a tuple_operators type vs. lexicographic reference over all pairs of full-width symbolic member tuples, trichotomy/transitivity over triples, equal => equal hash, last-component injectivity (universal) and per-component / order sensitivity as existential queries whose unsatisfiability is reported as a violation.'),
     'C17': ('6', 'split/join/replace_all/starts_with against naive reference scanners for every byte string inside the length bounds (haystack <= 4 quick / 5 thorough, needle <= 2, replacement <= 2, join of <= 3 elements): the solver decides each law for all byte values; termination of replace_all is the unwinding assertion of its loop.'),
